@@ -34,6 +34,8 @@ type Sim struct {
 	faults      map[string]int
 	probes      map[string]int
 	pendingDial []string
+	dialBy      map[uint64]string       // goroutine about to dial the broker -> session (from the handler's log line)
+	dialerOf    map[uint64]*clientActor // goroutine about to dial the gateway -> client actor
 	sessions    []string
 	broker      *broker
 	peers       []*rawPeer
@@ -95,6 +97,26 @@ type recLogger struct {
 func (l recLogger) add(lv, f string, a ...interface{}) {
 	msg := fmt.Sprintf(f, a...)
 	s := l.s
+	// which session dials the broker: the handler says so (tagged with the peer address) right
+	// before it dials, in the same goroutine. Accept order and dial order need not agree.
+	if strings.HasPrefix(msg, "Connecting to MQTT broker") {
+		if i := strings.Index(l.tag, "h:"); i >= 0 {
+			addr := l.tag[i+2:]
+			if j := strings.Index(addr, "/"); j >= 0 {
+				addr = addr[:j]
+			}
+			s.mu.Lock()
+			for _, lk := range s.links {
+				if lk.addr.S == addr {
+					if s.dialBy == nil {
+						s.dialBy = map[uint64]string{}
+					}
+					s.dialBy[simrt.Goid()] = lk.sessName()
+				}
+			}
+			s.mu.Unlock()
+		}
+	}
 	// a client's own state changes are part of the history (C33 judges pings against them)
 	if strings.HasPrefix(l.tag, "cl:") && strings.HasPrefix(msg, "State changed to ") {
 		name := strings.SplitN(l.tag[3:], "/", 2)[0]
@@ -358,11 +380,13 @@ func (s *Sim) newClientActor(i int, cp *ClientPlan) *clientActor {
 // dialing right now (marked by its actor before calling Dial).
 func (s *Sim) dialUDP(addr string) (net.Conn, error) {
 	s.mu.Lock()
-	var a *clientActor
-	for _, c := range s.clients {
-		if c.dialed && c.link.clConn == nil {
-			a = c
-			break
+	a := s.dialerOf[simrt.Goid()]
+	if a == nil {
+		for _, c := range s.clients {
+			if c.dialed && c.link.clConn == nil {
+				a = c
+				break
+			}
 		}
 	}
 	s.mu.Unlock()
@@ -417,6 +441,10 @@ func (a *clientActor) do(i int, op ClientOp) {
 	case "dial":
 		a.s.mu.Lock()
 		a.dialed = true
+		if a.s.dialerOf == nil {
+			a.s.dialerOf = map[uint64]*clientActor{}
+		}
+		a.s.dialerOf[simrt.Goid()] = a // clients dialling at the same instant must not swap links
 		a.s.mu.Unlock()
 		err = c.Dial(gwAddr)
 	case "connect":
